@@ -22,7 +22,7 @@ import (
 func init() {
 	Register(&Monitor{
 		ID: "C16",
-		Rule: "per case a random JSON text (objects/arrays nested to depth 30, empty containers in every position, duplicate/empty/odd keys, scalars of every kind at top level and inside, several concatenated top-level values) rendered with random whitespace, string escapes and number spellings (one case in twelve with the first of several top-level values ending exactly on byte 512) -> xsel.ReadJson, once from a reader that delivers everything in one Read and once piecewise (pseudo-random chunks of 1..23 bytes / one byte per Read / a Read ending after every closing brace or bracket; malformed inputs use one of the four patterns chosen by their content); oracle: direct recursive mapping written from the README (#obj/#arr, one element per member named by the key, one text node per scalar, siblings never merged) compared by parallel walk plus the C10 structural invariants, numbers accepted iff they read back to the same double with the minimal number of significant digits; " +
+		Rule: "per case a random JSON text (objects/arrays nested to depth 30, one case in forty wrapped in a further 31..300 levels of objects and arrays, empty containers in every position, duplicate/empty/odd keys, scalars of every kind at top level and inside, several concatenated top-level values) rendered with random whitespace, string escapes and number spellings (one case in twelve with the first of several top-level values ending exactly on byte 512) -> xsel.ReadJson, once from a reader that delivers everything in one Read and once piecewise (pseudo-random chunks of 1..23 bytes / one byte per Read / a Read ending after every closing brace or bracket; malformed inputs use one of the four patterns chosen by their content); oracle: direct recursive mapping written from the README (#obj/#arr, one element per member named by the key, one text node per scalar, siblings never merged) compared by parallel walk plus the C10 structural invariants, numbers accepted iff they read back to the same double with the minimal number of significant digits; " +
 			"malformed: every proper prefix of the rendering (capped) plus single-token deletions/insertions: whenever encoding/json's Decoder.Decode loop rejects the bytes as a sequence of complete values, ReadJson must return a non-nil error. distinct_nontrivial = distinct value-shape signatures and distinct (malformation kind, shape)",
 		NCases: func(tier string) int { return map[string]int{"quick": 50000, "thorough": 3000000}[tier] },
 		Case:   c16Case,
@@ -298,6 +298,23 @@ func c16Case(r *evid.Run, tier string, idx int, g *rng.R) {
 	}
 	for i := 0; i < ntop; i++ {
 		v := genJSON(g, 0)
+		if idx%40 == 9 && i == 0 {
+			// deep nesting around the value: objects and arrays in a random mix, depths around the
+			// sizes of fixed-width level bookkeeping
+			for k := rng.Pick(g, []int{31, 32, 33, 63, 64, 65, 66, 70, 130, 300}); k > 0; k-- {
+				if g.P(60) {
+					w := &jval{kind: 'o', keys: []string{rng.Pick(g, jsonKeys)}, items: []*jval{v}}
+					if g.P(20) {
+						w.keys = append(w.keys, "z")
+						w.items = append(w.items, &jval{kind: 's', str: "s"})
+					}
+					v = w
+				} else {
+					v = &jval{kind: 'a', items: []*jval{v}}
+				}
+			}
+			r.Count("deeply_nested_values", 1)
+		}
 		tops = append(tops, v)
 		if i > 0 {
 			sb.WriteString(rng.Pick(g, []string{" ", "\n", "\n\n"}))
